@@ -1030,3 +1030,41 @@ Qed.
 
 Lemma witness_fixed_value : evalL Lfix wx wy (1 / 4) = 1.
 Proof. destruct witness_valid as (A & B & C). rewrite fixed_is_reference by auto. apply witness_ref_value. Qed.
+
+(* ======================= part 8: non-negative data ======================= *)
+Lemma find_interval (xs : list R) q : incr xs -> (2 <= length xs)%nat ->
+  nth 0 xs 0 <= q <= nth (length xs - 1) xs 0 ->
+  exists i, (S i < length xs)%nat /\ nth i xs 0 <= q <= nth (S i) xs 0.
+Proof.
+  induction xs as [|x0 xs IH]; intros Hi H2 Hq; [cbn in H2; lia|].
+  destruct xs as [|x1 xs]; [cbn in H2; lia|].
+  destruct (Rle_dec q x1) as [Le|Gt].
+  - exists 0%nat. split; [cbn; lia|]. cbn [nth] in *. lra.
+  - destruct xs as [|x2 xs].
+    + exfalso. cbn in Hq. lra.
+    + destruct IH as (i & Hi1 & Hi2).
+      * eapply incr_tl; eauto.
+      * cbn; lia.
+      * split; [cbn [nth]; lra|].
+        replace (length (x1 :: x2 :: xs) - 1)%nat with (length (x2 :: xs)) by (cbn; lia).
+        replace (length (x0 :: x1 :: x2 :: xs) - 1)%nat with (S (length (x2 :: xs))) in Hq by (cbn; lia).
+        exact (proj2 Hq).
+      * exists (S i). split; [cbn in *; lia|]. exact Hi2.
+Qed.
+
+Lemma Forall_nth_nonneg (ys : list R) i : Forall (fun v => 0 <= v) ys -> (i < length ys)%nat -> 0 <= nth i ys 0.
+Proof. intros F Hi. rewrite Forall_forall in F. apply F. apply nth_In; auto. Qed.
+
+(* non-negative data => non-negative interpolant on the whole knot range (from min <= P on each interval) *)
+Lemma fixed_nonneg_inside (xs ys : list R) q :
+  incr xs -> length ys = length xs -> (2 <= length xs)%nat ->
+  Forall (fun v => 0 <= v) ys -> nth 0 xs 0 <= q <= nth (length xs - 1) xs 0 ->
+  0 <= evalL Lfix xs ys q.
+Proof.
+  intros Hi HL H2 F Hq. destruct (find_interval xs q Hi H2 Hq) as (i & Hlt & Hin).
+  destruct (fixed_shape xs ys Hi HL H2 i Hlt) as [S _]. specialize (S q Hin).
+  assert (0 <= nth i ys 0) by (apply Forall_nth_nonneg; auto; lia).
+  assert (0 <= nth (Datatypes.S i) ys 0) by (apply Forall_nth_nonneg; auto; lia).
+  unfold Rmin in S. destruct (Rle_dec (nth i ys 0) (nth (Datatypes.S i) ys 0)); lra.
+Qed.
+
